@@ -49,13 +49,22 @@ class CallGraph:
         self.out = defaultdict(list)
         self.callers = defaultdict(set)
         for path, f in fx.fns.items():
+            # closures handed to a call (spawn, execute, map_err, ...) run when/where that call says: they are
+            # attributed to the call site, not to the place the closure value is built
+            passed = set()
+            for b in f.blocks:
+                t = b["term"]
+                if t["k"] == "call":
+                    passed |= set((t.get("fn") or {}).get("fnvals", []))
+                    p0 = (t.get("fn") or {}).get("path")
+                    if p0:
+                        passed.add(p0)
             for bi, b in enumerate(f.blocks):
                 if b.get("cleanup"):
                     continue
-                # closures created here run "on behalf of" this function (possibly on another thread)
                 for s in b["stmts"]:
                     rv = s["rv"]
-                    if rv["k"] == "agg" and rv.get("ak") == "closure":
+                    if rv["k"] == "agg" and rv.get("ak") == "closure" and rv["closure"] not in passed:
                         self._edge(path, bi, rv["closure"], True, "closure-def")
                     # function items used as values
                     for o in rv_operands(rv)[0]:
